@@ -18,6 +18,43 @@ def library():
     return out
 
 
+def permutations_of(case, seed, limit):
+    """Column / row permutations of a classic degenerate start (the same problem with
+    another variable and row order): Dantzig's rule, Bland's rule and the tie-breaks
+    all depend on the order, also on where the basic columns sit."""
+    import itertools
+    import random
+    m = len(case["b"])
+    n = len(case["c"])
+    rnd = random.Random(seed)
+    seen = set()
+    out = []
+    # column j of the permuted tableau holds old column colmap[j]
+    shifts = [list(range(n))] + [list(range(k, n)) + list(range(k)) for k in range(1, n)] \
+        + [[n - 1] + list(range(n - 1))]
+    while len(out) < limit and len(seen) < 5000:
+        if len(seen) < len(shifts):
+            colmap = shifts[len(seen)]
+        else:
+            colmap = list(range(n))
+            rnd.shuffle(colmap)
+        rp = list(range(m))
+        if len(seen) >= len(shifts):
+            rnd.shuffle(rp)
+        key = (tuple(colmap), tuple(rp))
+        if key in seen:
+            seen.add((key, len(seen)))
+            continue
+        seen.add(key)
+        a = [[case["a"][r][colmap[j]] for j in range(n)] for r in rp]
+        b = [case["b"][r] for r in rp]
+        c = [case["c"][colmap[j]] for j in range(n)]
+        inv = {old: new for new, old in enumerate(colmap)}
+        basis = [inv[case["basis"][r] - 1] + 1 for r in rp]
+        out.append(dict(case, id=f"{case['id']}_p{len(out)}", a=a, b=b, c=c, basis=basis))
+    return out
+
+
 def run_key(ev):
     return ev["run"].split("#")[0].rsplit("/", 1)[0] + "/" + ev["run"].split("#")[0].rsplit("/", 1)[1]
 
@@ -32,6 +69,9 @@ def check(tier, seed, replay=None):
         cases = [json.load(open(replay))]
     else:
         cases = library()
+        for c in list(cases):
+            if c["id"] in ("kuhn", "beale", "beale_chvatal"):
+                cases += permutations_of(c, seed, 80 if tier == "quick" else 3000)
         plan = [("Gen22.cfg", "sg22", 1500), ("Gen23.cfg", "sg23", 1000)]
         for cfg, tag, nquick in plan:
             cs, g, dst = core.gen_cases(SPEC_DIR, "SimplexGen.tla", cfg, tag, workers=8)
